@@ -5,6 +5,7 @@ import (
 	"go/constant"
 	"go/token"
 	"go/types"
+	"regexp/syntax"
 	"sort"
 	"strings"
 
@@ -20,16 +21,18 @@ func init() {
 			"for every validation predicate (share not deleted in the index, share fetch ok, size bound, AsShare ok, not expired, hop 1 equals the share target, transitive when the chain is longer than 2, intermediate fetch ok, bytesHaveSchemaLink(cur, bytes-of-cur, next) true, assemble only when transitive) no emitter is reachable from the predicate's bad edge, the predicate is evaluated on the right values (current chain element, the share parsed from that element's bytes, chain[1] / chain[i+1]) and, under each chain-position scenario (first element of a chain of length 1, 2, long; middle element), every path through one loop iteration crosses the predicate's good edge; non-GET requests return before any fetch or emitter; ServeHTTP/serveHTTP hand the ResponseWriter only to handleGetViaSharing or to the 400/401 error senders. " +
 			"H-links — every exported blob.Ref-carrying accessor of *schema.Blob is classified (tree link or not, one reason each); each tree-link accessor (ByteParts incl. every blob.Ref field of BytesPart, DirectoryEntries, StaticSetMembers, StaticSetMergeSets) is called in bytesHaveSchemaLink on the parsed blob, reachable for each camliType it applies to, and its result is compared for equality with the target parameter with the comparison deciding the return value; every possibly-true return is guarded by such a comparison (no text search can say yes). " +
 			"H-auth — (i) every handler type registered with blobserver.RegisterHandlerConstructor is either answered true by handlerTypeWantsAuth (evaluated on the constant) or is a reasoned exception re-checked structurally (share: H-gate; root: serveDiscovery only under auth.Allowed); (ii) every blob-protocol handler constructor (handlers.Create*Handler, gethandler.CreateGetHandler) is called only where its result flows into auth.RequireAuth and nowhere else, and every Operation handed to RequireAuth is a non-zero constant (a zero Operation is allowed to everybody); (iii) every handler registration (HandlerInstaller.Handle, ServeMux/webserver Handle/HandleFunc) in the server packages installs an always-refusing handler, an auth.RequireAuth value, an auth.Handler wrap, a handler function all of whose response paths go through RequireAuth, or a bare handler only on the edge where handlerTypeWantsAuth(h.htype) is false for the same htype given to CreateHandler; (iv) auth.Handler / RequireAuth call the inner handler only under Allowed(sameRequest, op)==true, Allowed says yes only under AllowedWithAuth(mode, req, op)==true, and AllowedWithAuth returns (AllowedAccess(req) & mask) == mask with mask derived from op. " +
-			"NOT decided: that the predicates compute the right thing on every input (schema parsing, expiry arithmetic, index deletion state, hash of fetched bytes); completeness (every valid chain is served) beyond the link-kind agreement; credential checking inside each auth mode; app handlers' own auth (separate processes behind pkg/server/app); what authenticated handlers do after the wrapper; timing side channels; runtime configuration generation.",
+			"H-secret — for every declared AllowedAccess of every auth.AuthMode implementation, and (per call site, operands translated to the caller) every module function with a single bool or integer (Operation) result that feeds its decision, each branch condition is split into atoms; an atom is a credential comparison when it is an equality test (==, !=, bytes.Equal, hmac.Equal, EqualFold, ConstantTimeCompare/Compare tested against an int constant, HasPrefix/HasSuffix/Contains) with exactly one operand derived from the *http.Request and a non-constant other operand (the secret). The comparison is strong when the secret — or, for plain equality, the request operand — is provably non-empty where it is compared: a dominating non-empty check (!= \"\", len, Contains of a non-empty constant), a non-empty constant or concatenation with one, the result of a module function all of whose returns are non-empty, a package variable every assignment of which (whole package / whole module for exported ones; address never taken) stores a non-empty value that for run-time assignments derives from crypto/rand (buffer of positive constant length filled by crypto/rand.Read / io.ReadFull(rand.Reader), rendered by Sprintf/hex/base64) AND whose read is preceded on every path by an initialisation (package initialiser, an assignment, or sync.Once.Do / a call of a function every return of which lies behind such an assignment, the Once not being consumed by any other function), or a struct field every assignment of which in the module stores a non-empty value and which no creation of the struct leaves unset. For a CONFIGURED secret (a field of the auth mode: the operator's choice, possibly empty) the comparison is also strong when the request-side operand is proven present in the request on that path: a result of (*http.Request).BasicAuth under ok==true, a result of a module parser of the request under err==nil where every nil-error return of that parser lies behind a non-empty check of the header it reads (httputil.BasicAuth), or a submatch of a request value against an init-time regexp.MustCompile(constant) whose shortest match is non-empty, under a length check of the match — a request without credentials then cannot reach the success edge; an operand that merely reads as \"\" when the field is absent (Header.Get, FormValue without presence check) does not qualify. A direct read of a lazily minted package variable outside such an accessor is therefore weak (\"secret may still be empty\"). Each AllowedAccess is then executed over every assignment of its free and weak atoms with all strong comparisons failing: a grant (non-zero Operation) that disappears when the weak comparisons are made to fail as well is reported with the minimal set of possibly-empty secrets that alone authorise the request. " +
+			"NOT decided: that the predicates compute the right thing on every input (schema parsing, expiry arithmetic, index deletion state, hash of fetched bytes); completeness (every valid chain is served) beyond the link-kind agreement; inside each auth mode only the non-emptiness/initialisation of the compared secrets and the presence of the request-side credential are decided (H-secret; an empty configured password that the request must literally present is a configuration hazard, not a violation), not that the right request field is compared with the right secret, that the encoding of a non-empty random buffer is non-empty for exotic format verbs, that crypto/rand cannot fail (a panic inside the Once leaves the variable empty), nor zero values created by reflection/decoding; a module callee that contains a comparison against a package-level string or an auth-mode field but is not followed (several results, dynamic call) is reported undecided; app handlers' own auth (separate processes behind pkg/server/app); what authenticated handlers do after the wrapper; timing side channels; runtime configuration generation.",
 		RuleDocs: map[string]string{
-			"H-gate":  "handleGetViaSharing: emitters (calls receiving the ResponseWriter) x validation predicates: loop-exit dominance, bad-edge unreachability, per-scenario must-cross of the good edge, value relations; method gate; entry points hand rw only to the gate or error senders",
-			"H-links": "bytesHaveSchemaLink honours exactly the tree-link accessors of schema.Blob: each called, type-reachable, compared with target, decisive; every possibly-true return guarded by such a comparison; accessor classification exhaustive",
-			"H-auth":  "registered handler types vs. handlerTypeWantsAuth (+2 re-checked exceptions); blob-protocol handler constructors flow only into RequireAuth with non-zero op; every Handle registration classified; auth wrappers call through only under Allowed==true",
+			"H-gate":   "handleGetViaSharing: emitters (calls receiving the ResponseWriter) x validation predicates: loop-exit dominance, bad-edge unreachability, per-scenario must-cross of the good edge, value relations; method gate; entry points hand rw only to the gate or error senders",
+			"H-links":  "bytesHaveSchemaLink honours exactly the tree-link accessors of schema.Blob: each called, type-reachable, compared with target, decisive; every possibly-true return guarded by such a comparison; accessor classification exhaustive",
+			"H-secret": "auth modes: every equality test of request data against a non-constant secret reachable from an AllowedAccess; the secret (or the request operand) must be provably non-empty — or, for a configured field of the mode, the request operand provably present (successful parse of a credential header) — and, for package variables, initialised before the read (Once-guarded accessor, not the raw variable); exhaustive evaluation of each AllowedAccess shows no grant rests only on possibly-empty secrets",
+			"H-auth":   "registered handler types vs. handlerTypeWantsAuth (+2 re-checked exceptions); blob-protocol handler constructors flow only into RequireAuth with non-zero op; every Handle registration classified; auth wrappers call through only under Allowed==true",
 		},
 		Run:       runC17,
 		DesignRef: "DESIGN.md §4 C17",
-		Technique: "static analysis: dominance and edge-reachability over go/ssa with scenario-pruned path exploration, value dependence, who-may-call and table agreement (handler types, link accessors)",
-		LevelText: "Decides structural necessary conditions only: nothing is written to an unauthenticated share response except after the whole via-chain passed every validation predicate on the right values; the link check honours exactly the schema tree links; every registered handler type and every installed endpoint of the server packages is behind an auth wrapper (or is the share/root exception, re-checked), and the wrappers call through only when Allowed said yes. Does not decide that the predicates, the auth modes or the schema parser are correct on all inputs, nor app-side auth.",
+		Technique: "static analysis: dominance and edge-reachability over go/ssa with scenario-pruned path exploration, value dependence, who-may-call and table agreement (handler types, link accessors); for H-secret interprocedural (call-site sensitive) value derivation of compared operands, dominance of initialisation over reads, module-wide writer sets of package variables and struct fields, and exhaustive boolean evaluation of the auth modes' decision functions",
+		LevelText: "Decides structural necessary conditions only: nothing is written to an unauthenticated share response except after the whole via-chain passed every validation predicate on the right values; the link check honours exactly the schema tree links; every registered handler type and every installed endpoint of the server packages is behind an auth wrapper (or is the share/root exception, re-checked), and the wrappers call through only when Allowed said yes; inside the auth modes no grant depends only on comparisons against a secret that may be empty or not yet minted (a request carrying nothing would pass them). Does not decide that the predicates, the auth modes' choice of fields or the schema parser are correct on all inputs, nor app-side auth.",
 	})
 }
 
@@ -38,6 +41,7 @@ func runC17(p *Program, r *Reporter) {
 	c17RuleGate(p, r, a)
 	c17RuleLinks(p, r)
 	c17RuleAuth(a)
+	c17RuleSecret(p, r)
 }
 
 // ---------------------------------------------------------------------------
@@ -2712,4 +2716,2060 @@ func (a *c17Auth) wrappers() {
 			r.Violation("H-auth", construct, p.Pos(fn.Pos()), why)
 		}
 	}
+}
+
+// ---------------------------------------------------------------------------
+// H-secret: credential comparisons inside the auth modes compare request data
+// with a secret that is provably initialised and non-empty.
+//
+// Model. For every AllowedAccess implementation (and, per call site, every
+// module function with a single bool/Operation result that feeds its decision)
+// the branch conditions
+// are split into atoms. An atom is a credential comparison when it is an
+// equality test (==, !=, bytes.Equal, hmac.Equal, EqualFold,
+// ConstantTimeCompare/Compare against an int constant, HasPrefix-like) with
+// exactly one request-derived operand and a non-constant other operand (the
+// secret). A credential comparison is STRONG when the secret (or, for plain
+// equality, the request operand) is provably non-empty where it is compared;
+// otherwise WEAK: a request that carries nothing can pass it. All other
+// conditions are FREE. The function is then executed over every assignment
+// of the free and weak atoms with every strong comparison failing (the
+// request carries no credential): if some assignment grants a non-zero
+// Operation and the same assignment with every weak comparison failing does
+// not, the weak comparisons that succeeded on that path authorise a
+// credential-less request.
+
+type c17Kind int
+
+const (
+	c17Free c17Kind = iota
+	c17Strong
+	c17Weak
+)
+
+type c17Frame struct {
+	fn     *ssa.Function
+	call   *ssa.Call // call site in parent (nil for a root frame)
+	parent *c17Frame
+	depth  int
+}
+
+func (f *c17Frame) root() *c17Frame {
+	for f.parent != nil {
+		f = f.parent
+	}
+	return f
+}
+
+func (f *c17Frame) inChain(fn *ssa.Function) bool {
+	for x := f; x != nil; x = x.parent {
+		if x.fn == fn {
+			return true
+		}
+	}
+	return false
+}
+
+// argFor returns the caller-side argument bound to parameter prm of f.fn.
+func (f *c17Frame) argFor(prm *ssa.Parameter) ssa.Value {
+	if f == nil || f.call == nil || prm.Parent() != f.fn {
+		return nil
+	}
+	for i, fp := range f.fn.Params {
+		if fp == prm && i < len(f.call.Call.Args) {
+			return f.call.Call.Args[i]
+		}
+	}
+	return nil
+}
+
+type c17Atom struct {
+	v     ssa.Value
+	kind  c17Kind
+	succ  bool     // value of v that means "comparison matched / helper said yes"
+	descr []string // weak secrets behind the atom
+	recs  []*c17SiteRec
+	name  string
+}
+
+type c17SiteRec struct {
+	construct string
+	site      string
+	strong    bool
+	why       string
+	decisive  bool
+}
+
+type c17Sec struct {
+	p           *Program
+	r           *Reporter
+	sites       map[string]*c17SiteRec
+	siteOrder   []string
+	globalMemo  map[*ssa.Global]*c17GlobalInfo
+	fieldMemo   map[string]c17Proof
+	busy        map[*ssa.Function]bool
+	helperMemo  map[*ssa.Call]*c17HelperRes
+	hideMemo    map[*ssa.Function]string
+	absenceMemo map[*ssa.Function]c17Proof
+	authTypes   map[*types.Named]bool
+	undecided   map[string]string // construct -> detail
+	undSite     map[string]string
+	nCmp        int
+}
+
+type c17Proof struct {
+	ok  bool
+	why string
+}
+
+func c17StringLike(t types.Type) bool {
+	switch u := t.Underlying().(type) {
+	case *types.Basic:
+		return u.Info()&types.IsString != 0
+	case *types.Slice:
+		b, ok := u.Elem().Underlying().(*types.Basic)
+		return ok && (b.Kind() == types.Byte || b.Kind() == types.Uint8)
+	case *types.Array:
+		b, ok := u.Elem().Underlying().(*types.Basic)
+		return ok && (b.Kind() == types.Byte || b.Kind() == types.Uint8)
+	}
+	return false
+}
+
+// c17StripConv looks through string<->[]byte conversions, whole-slice
+// expressions and single-assignment locals.
+func c17StripConv(v ssa.Value) ssa.Value {
+	for i := 0; i < 16 && v != nil; i++ {
+		v = originValue(v)
+		switch x := v.(type) {
+		case *ssa.Convert:
+			if c17StringLike(x.Type()) && c17StringLike(x.X.Type()) {
+				v = x.X
+				continue
+			}
+		case *ssa.Slice:
+			if x.Low == nil && x.High == nil && x.Max == nil && c17StringLike(x.X.Type()) {
+				v = x.X
+				continue
+			}
+		}
+		return v
+	}
+	return v
+}
+
+func (s *c17Sec) resolve(v ssa.Value, f *c17Frame) (ssa.Value, *c17Frame) {
+	for i := 0; i < 16; i++ {
+		v = c17StripConv(v)
+		prm, ok := v.(*ssa.Parameter)
+		if !ok {
+			return v, f
+		}
+		a := f.argFor(prm)
+		if a == nil {
+			return v, f
+		}
+		v, f = a, f.parent
+	}
+	return v, f
+}
+
+func c17IsRequestType(t types.Type) bool {
+	return IsNamed(t, "net/http", "Request") || IsNamed(t, "net/http", "Header") || IsNamed(t, "net/url", "URL") || IsNamed(t, "net/url", "Values")
+}
+
+// reqDerived: v depends on the *http.Request (directly, or through a
+// parameter bound to request-derived data at the frame's call site).
+func (s *c17Sec) reqDerived(v ssa.Value, f *c17Frame) bool {
+	return c17DependsOn(v, func(x ssa.Value) bool {
+		prm, ok := x.(*ssa.Parameter)
+		if !ok {
+			return false
+		}
+		if c17IsRequestType(prm.Type()) {
+			return true
+		}
+		if a := f.argFor(prm); a != nil {
+			return s.reqDerived(a, f.parent)
+		}
+		return false
+	})
+}
+
+// ---- comparison recognition ------------------------------------------------
+
+type c17Cmp struct {
+	x, y       ssa.Value
+	succ       bool // atom value meaning "matched"
+	prefixLike bool // true whenever y is empty (HasPrefix/HasSuffix/Contains)
+	name       string
+}
+
+func c17IntOp(op token.Token, a, b int64) (bool, bool) {
+	switch op {
+	case token.EQL:
+		return a == b, true
+	case token.NEQ:
+		return a != b, true
+	case token.LSS:
+		return a < b, true
+	case token.LEQ:
+		return a <= b, true
+	case token.GTR:
+		return a > b, true
+	case token.GEQ:
+		return a >= b, true
+	}
+	return false, false
+}
+
+func c17FlipOp(op token.Token) token.Token {
+	switch op {
+	case token.LSS:
+		return token.GTR
+	case token.LEQ:
+		return token.GEQ
+	case token.GTR:
+		return token.LSS
+	case token.GEQ:
+		return token.LEQ
+	}
+	return op
+}
+
+var c17BoolComparators = []struct {
+	pkg, name  string
+	prefixLike bool
+}{
+	{"bytes", "Equal", false}, {"crypto/hmac", "Equal", false}, {"strings", "EqualFold", false}, {"bytes", "EqualFold", false},
+	{"strings", "HasPrefix", true}, {"strings", "HasSuffix", true}, {"strings", "Contains", true},
+	{"bytes", "HasPrefix", true}, {"bytes", "HasSuffix", true}, {"bytes", "Contains", true},
+}
+
+// int-valued comparators: result when equal, results when different.
+var c17IntComparators = []struct {
+	pkg, name string
+	eq        int64
+	ne        []int64
+}{
+	{"crypto/subtle", "ConstantTimeCompare", 1, []int64{0}},
+	{"bytes", "Compare", 0, []int64{-1, 1}},
+	{"strings", "Compare", 0, []int64{-1, 1}},
+}
+
+// c17AsComparison recognises an equality test. ambiguous=true: a comparator
+// call is tested in a way that does not separate equal from different.
+func c17AsComparison(v ssa.Value) (cmp *c17Cmp, ambiguous bool) {
+	switch x := v.(type) {
+	case *ssa.BinOp:
+		if (x.Op == token.EQL || x.Op == token.NEQ) && c17StringLike(x.X.Type()) && c17StringLike(x.Y.Type()) {
+			return &c17Cmp{x: x.X, y: x.Y, succ: x.Op == token.EQL, name: x.Op.String()}, false
+		}
+		for _, side := range []int{0, 1} {
+			cv, kv, op := x.X, x.Y, x.Op
+			if side == 1 {
+				cv, kv, op = x.Y, x.X, c17FlipOp(x.Op)
+			}
+			call, ok := originValue(cv).(*ssa.Call)
+			if !ok {
+				continue
+			}
+			k, isConst := ConstInt(kv)
+			if !isConst {
+				continue
+			}
+			cs := CallSite{call.Parent(), call}
+			for _, ic := range c17IntComparators {
+				if !cs.IsStatic(ic.pkg, "", ic.name) || len(call.Call.Args) != 2 {
+					continue
+				}
+				te, ok1 := c17IntOp(op, ic.eq, k)
+				if !ok1 {
+					return nil, true
+				}
+				for _, ne := range ic.ne {
+					tn, _ := c17IntOp(op, ne, k)
+					if tn == te {
+						return nil, true
+					}
+				}
+				return &c17Cmp{x: call.Call.Args[0], y: call.Call.Args[1], succ: te, name: ic.pkg + "." + ic.name}, false
+			}
+		}
+	case *ssa.Call:
+		cs := CallSite{x.Parent(), x}
+		for _, bc := range c17BoolComparators {
+			if cs.IsStatic(bc.pkg, "", bc.name) && len(x.Call.Args) == 2 {
+				return &c17Cmp{x: x.Call.Args[0], y: x.Call.Args[1], succ: true, prefixLike: bc.prefixLike, name: bc.pkg + "." + bc.name}, false
+			}
+		}
+	}
+	return nil, false
+}
+
+// ---- describing a secret -----------------------------------------------------
+
+func c17FieldOf(fa *ssa.FieldAddr) (*types.Named, *types.Var) {
+	t := fa.X.Type()
+	if pt, ok := t.Underlying().(*types.Pointer); ok {
+		t = pt.Elem()
+	}
+	st, ok := t.Underlying().(*types.Struct)
+	if !ok || fa.Field >= st.NumFields() {
+		return nil, nil
+	}
+	n, _ := t.(*types.Named)
+	return n, st.Field(fa.Field)
+}
+
+// c17FieldLoad: v is a load of a struct field (ptr=false) or a load through a
+// pointer loaded from a struct field (ptr=true).
+func c17FieldLoad(v ssa.Value) (fa *ssa.FieldAddr, ptr, ok bool) {
+	u, isU := v.(*ssa.UnOp)
+	if !isU || u.Op != token.MUL {
+		return nil, false, false
+	}
+	if a, isFA := u.X.(*ssa.FieldAddr); isFA {
+		return a, false, true
+	}
+	if in, isU2 := u.X.(*ssa.UnOp); isU2 && in.Op == token.MUL {
+		if a, isFA := in.X.(*ssa.FieldAddr); isFA {
+			return a, true, true
+		}
+	}
+	return nil, false, false
+}
+
+func (s *c17Sec) describe(v ssa.Value) string {
+	switch x := v.(type) {
+	case *ssa.UnOp:
+		if x.Op == token.MUL {
+			if g, ok := x.X.(*ssa.Global); ok {
+				return "global:" + RelPkg(g.Pkg.Pkg) + "." + g.Name()
+			}
+			if fa, _, ok := c17FieldLoad(x); ok {
+				if n, fv := c17FieldOf(fa); fv != nil {
+					if n != nil {
+						return n.Obj().Name() + "." + fv.Name()
+					}
+					return "field." + fv.Name()
+				}
+			}
+		}
+	case *ssa.Call:
+		cs := CallSite{x.Parent(), x}
+		return cs.CalleeKey() + "()"
+	case *ssa.Parameter:
+		return "param:" + x.Name()
+	}
+	ap := AccessPath(v)
+	if strings.HasPrefix(ap, "?") {
+		return "expr:" + v.Name()
+	}
+	return ap
+}
+
+// ---- non-emptiness -----------------------------------------------------------
+
+func c17RootFrame(fn *ssa.Function) *c17Frame { return &c17Frame{fn: fn} }
+
+// samePlace: a and v denote the same value: same origin, or the same
+// parameter-rooted field path / global with no store to that place in fn.
+func (s *c17Sec) samePlace(a, v ssa.Value) bool {
+	a = c17StripConv(a)
+	if sameOrigin(a, v) {
+		return true
+	}
+	pa, pv := AccessPath(a), AccessPath(v)
+	if pa != pv || strings.Contains(pa, "?") || strings.HasPrefix(pa, "const:") {
+		return false
+	}
+	if !strings.Contains(pa, ".") { // only fields and globals; locals are handled by sameOrigin
+		return false
+	}
+	// no store to the place between the two reads: require none in the function
+	var fn *ssa.Function
+	if in, ok := v.(ssa.Instruction); ok {
+		fn = in.Parent()
+	}
+	if fn == nil {
+		return false
+	}
+	for _, b := range fn.Blocks {
+		for _, in := range b.Instrs {
+			if st, ok := in.(*ssa.Store); ok && AccessPath(st.Addr) == "&"+pa {
+				return false
+			}
+		}
+	}
+	return true
+}
+
+// factNonEmpty: does the branch fact (cond == val) imply that v is non-empty?
+func (s *c17Sec) factNonEmpty(cond ssa.Value, val bool, v ssa.Value) bool {
+	cond, val = c17StripNot(cond, val)
+	switch c := cond.(type) {
+	case *ssa.BinOp:
+		// v != "" / v == "non-empty"
+		if c.Op == token.EQL || c.Op == token.NEQ {
+			for _, side := range []int{0, 1} {
+				kv, ov := c.X, c.Y
+				if side == 1 {
+					kv, ov = c.Y, c.X
+				}
+				if k, ok := ConstString(kv); ok && s.samePlace(ov, v) {
+					if k == "" {
+						return (c.Op == token.NEQ) == val
+					}
+					return (c.Op == token.EQL) == val
+				}
+			}
+		}
+		// len(v) <op> k
+		for _, side := range []int{0, 1} {
+			lv, kv, op := c.X, c.Y, c.Op
+			if side == 1 {
+				lv, kv, op = c.Y, c.X, c17FlipOp(c.Op)
+			}
+			arg, isLen := c17IsBuiltinLen(lv)
+			k, isK := ConstInt(kv)
+			if !isLen || !isK || !s.samePlace(arg, v) {
+				continue
+			}
+			if at0, ok := c17IntOp(op, 0, k); ok && at0 != val {
+				return true // the fact is false for length 0
+			}
+		}
+	case *ssa.Call:
+		if !val {
+			return false
+		}
+		cs := CallSite{c.Parent(), c}
+		for _, bc := range c17BoolComparators {
+			if bc.prefixLike && cs.IsStatic(bc.pkg, "", bc.name) && len(c.Call.Args) == 2 {
+				if k, ok := ConstString(c.Call.Args[1]); ok && k != "" && s.samePlace(c.Call.Args[0], v) {
+					return true
+				}
+			}
+		}
+	}
+	return false
+}
+
+// varargsElems returns the values stored in the elements of a varargs slice.
+func c17VarargsElems(v ssa.Value) []ssa.Value {
+	sl, ok := v.(*ssa.Slice)
+	if !ok {
+		return nil
+	}
+	al, ok := sl.X.(*ssa.Alloc)
+	if !ok || al.Referrers() == nil {
+		return nil
+	}
+	byIdx := map[int64]ssa.Value{}
+	var max int64 = -1
+	for _, ref := range *al.Referrers() {
+		ia, ok := ref.(*ssa.IndexAddr)
+		if !ok || ia.Referrers() == nil {
+			continue
+		}
+		idx, ok := ConstInt(ia.Index)
+		if !ok {
+			return nil
+		}
+		for _, rr := range *ia.Referrers() {
+			if st, ok := rr.(*ssa.Store); ok && st.Addr == ssa.Value(ia) {
+				byIdx[idx] = st.Val
+				if idx > max {
+					max = idx
+				}
+			}
+		}
+	}
+	out := make([]ssa.Value, max+1)
+	for i := range out {
+		out[i] = byIdx[int64(i)]
+	}
+	return out
+}
+
+func (s *c17Sec) sprintfNonEmpty(call *ssa.Call, f *c17Frame, at *ssa.BasicBlock, d int) (bool, string) {
+	if len(call.Call.Args) < 1 {
+		return false, "fmt.Sprintf without format"
+	}
+	format, ok := ConstString(call.Call.Args[0])
+	if !ok {
+		return false, "fmt.Sprintf with a non-constant format"
+	}
+	var elems []ssa.Value
+	if len(call.Call.Args) > 1 {
+		elems = c17VarargsElems(call.Call.Args[1])
+	}
+	argi := 0
+	for i := 0; i < len(format); i++ {
+		if format[i] != '%' {
+			return true, "format has literal text"
+		}
+		if i+1 >= len(format) {
+			return false, "malformed format"
+		}
+		i++
+		switch format[i] {
+		case '%':
+			return true, "format has literal text"
+		case 'd', 'q', 't', 'p', 'T':
+			return true, "verb always prints"
+		case 'x', 'X', 's', 'v':
+			if argi < len(elems) && elems[argi] != nil {
+				if ok, why := s.nonEmpty(elems[argi], f, at, d+1); ok {
+					return true, "formats " + why
+				}
+			}
+			argi++
+		default:
+			return false, "format verb with flags/width is not followed"
+		}
+	}
+	return false, "every formatted operand may be empty"
+}
+
+func (s *c17Sec) nonEmpty(v ssa.Value, f *c17Frame, at *ssa.BasicBlock, d int) (bool, string) {
+	if d > 14 || v == nil {
+		return false, "derivation too deep"
+	}
+	v = c17StripConv(v)
+	if k, ok := v.(*ssa.Const); ok {
+		if k.Value != nil && k.Value.Kind() == constant.String {
+			if constant.StringVal(k.Value) != "" {
+				return true, "non-empty constant"
+			}
+			return false, "the empty constant"
+		}
+		return false, "constant zero value"
+	}
+	if at != nil && at.Parent() == f.fn {
+		for _, fc := range FactsAt(at) {
+			if s.factNonEmpty(fc.Cond, fc.Val, v) {
+				return true, "checked non-empty on every path to the comparison (" + s.describe(v) + ")"
+			}
+		}
+	}
+	switch x := v.(type) {
+	case *ssa.Phi:
+		for i, e := range x.Edges {
+			if e == ssa.Value(x) {
+				continue
+			}
+			if ok, why := s.nonEmpty(e, f, x.Block().Preds[i], d+1); !ok {
+				return false, why
+			}
+		}
+		return true, "non-empty on every incoming edge"
+	case *ssa.BinOp:
+		if x.Op == token.ADD && c17StringLike(x.Type()) {
+			if ok, why := s.nonEmpty(x.X, f, at, d+1); ok {
+				return true, "concatenation with " + why
+			}
+			if ok, why := s.nonEmpty(x.Y, f, at, d+1); ok {
+				return true, "concatenation with " + why
+			}
+			return false, "concatenation of possibly empty strings"
+		}
+	case *ssa.Parameter:
+		if a := f.argFor(x); a != nil {
+			return s.nonEmpty(a, f.parent, f.call.Block(), d+1)
+		}
+		if x.Parent() != f.fn || f.call != nil {
+			return false, "parameter " + x.Name() + " of an enclosing function"
+		}
+		// root frame: every caller must pass a non-empty value
+		fn := f.fn
+		if fn.Parent() != nil {
+			return false, "parameter of a function literal"
+		}
+		if uses := s.p.FuncValueUses(fn); len(uses) > 0 {
+			return false, "parameter " + x.Name() + " of " + FuncKey(fn) + ", which is also used as a function value (" + s.p.Pos(uses[0].Pos()) + "): callers unknown"
+		}
+		callers := s.p.StaticCallers(fn)
+		if len(callers) == 0 {
+			return false, "parameter " + x.Name() + " of " + FuncKey(fn) + " (no static caller)"
+		}
+		idx := -1
+		for i, fp := range fn.Params {
+			if fp == x {
+				idx = i
+			}
+		}
+		for _, c := range callers {
+			if IsTestSupportPkg(RelPkg(TopFunc(c.Fn).Pkg.Pkg)) {
+				continue
+			}
+			args := c.Common().Args
+			if idx < 0 || idx >= len(args) {
+				return false, "parameter " + x.Name() + " of " + FuncKey(fn) + ": caller shape not followed"
+			}
+			if ok, why := s.nonEmpty(args[idx], c17RootFrame(c.Fn), c.Block(), d+2); !ok {
+				return false, "parameter " + x.Name() + " of " + FuncKey(fn) + " <- " + FuncKey(c.Fn) + ": " + why
+			}
+		}
+		return true, "every caller of " + FuncKey(fn) + " passes a non-empty " + x.Name()
+	case *ssa.MakeSlice:
+		lv, _ := s.resolve(x.Len, f)
+		if n, ok := ConstInt(lv); ok && n > 0 {
+			return true, fmt.Sprintf("buffer of %d bytes", n)
+		}
+		return false, "buffer length not a positive constant"
+	case *ssa.Call:
+		cs := CallSite{x.Parent(), x}
+		callee := cs.Callee()
+		if callee == nil {
+			return false, "result of a dynamic call " + cs.CalleeKey()
+		}
+		switch {
+		case funcIs(callee, "fmt", "", "Sprintf"):
+			return s.sprintfNonEmpty(x, f, at, d)
+		case funcIs(callee, "encoding/hex", "", "EncodeToString") && len(x.Call.Args) == 1:
+			ok, why := s.nonEmpty(x.Call.Args[0], f, at, d+1)
+			return ok, "hex of " + why
+		case funcIs(callee, "encoding/base64", "Encoding", "EncodeToString") && len(x.Call.Args) == 2:
+			ok, why := s.nonEmpty(x.Call.Args[1], f, at, d+1)
+			return ok, "base64 of " + why
+		case funcIs(callee, "crypto/rand", "", "Text"):
+			return true, "crypto/rand.Text()"
+		case (funcIs(callee, "strings", "", "ToLower") || funcIs(callee, "strings", "", "ToUpper")) && len(x.Call.Args) == 1:
+			return s.nonEmpty(x.Call.Args[0], f, at, d+1)
+		}
+		if !InModule(callee) || len(callee.Blocks) == 0 {
+			return false, "result of " + cs.CalleeKey() + " (not followed)"
+		}
+		if callee.Signature.Results().Len() != 1 {
+			return false, "one of several results of " + cs.CalleeKey()
+		}
+		if f.inChain(callee) || f.depth > 6 {
+			return false, "recursive " + cs.CalleeKey()
+		}
+		nf := &c17Frame{fn: callee, call: x, parent: f, depth: f.depth + 1}
+		rets := Returns(callee)
+		if len(rets) == 0 {
+			return false, cs.CalleeKey() + " never returns"
+		}
+		var whys []string
+		for _, ri := range rets {
+			ok, why := s.nonEmpty(ri.Results[0], nf, ri.Ret.Block(), d+1)
+			if !ok {
+				return false, "a return of " + cs.CalleeKey() + ": " + why
+			}
+			whys = append(whys, why)
+		}
+		return true, "result of " + cs.CalleeKey() + " [" + strings.Join(c17Uniq(whys), "; ") + "]"
+	case *ssa.UnOp:
+		if x.Op != token.MUL {
+			break
+		}
+		if g, ok := x.X.(*ssa.Global); ok {
+			return s.globalNonEmptyAt(g, x)
+		}
+		if fa, ptr, ok := c17FieldLoad(x); ok {
+			return s.fieldNonEmpty(fa, ptr)
+		}
+		if al, ok := x.X.(*ssa.Alloc); ok {
+			sts := storesTo(al)
+			if len(sts) == 0 || !plainVariable(al) {
+				return false, "local " + al.Comment + " not followed"
+			}
+			for _, st := range sts {
+				if st.Parent() != f.fn {
+					return false, "local " + al.Comment + " written in a function literal"
+				}
+				if ok, why := s.nonEmpty(st.Val, f, st.Block(), d+1); !ok {
+					return false, "local " + al.Comment + ": " + why
+				}
+			}
+			// some store must precede the load, otherwise the zero value is visible
+			for _, st := range sts {
+				if Precedes(st, x) {
+					return true, "every assignment of " + al.Comment + " is non-empty"
+				}
+			}
+			return false, "local " + al.Comment + " may still hold its zero value"
+		}
+	}
+	return false, "cannot prove " + s.describe(v) + " non-empty"
+}
+
+// ---- presence of the request-side operand ----------------------------------
+//
+// A configured secret (a field of the auth mode) may legitimately be whatever
+// the operator wrote. What the property needs is that a request WITHOUT
+// credentials cannot reach the success edge: the request-side operand must
+// come from a credential-carrying header that was successfully parsed on that
+// path (so it is not the "" an absent header/form value reads as).
+
+// present: v is a result of a parse of the request that reported success on
+// every path to block at.
+func (s *c17Sec) present(v ssa.Value, f *c17Frame, at *ssa.BasicBlock, d int) (bool, string) {
+	if d > 8 || v == nil {
+		return false, ""
+	}
+	v = c17StripConv(v)
+	switch x := v.(type) {
+	case *ssa.Parameter:
+		if a := f.argFor(x); a != nil {
+			return s.present(a, f.parent, f.call.Block(), d+1)
+		}
+	case *ssa.Phi:
+		for i, e := range x.Edges {
+			if ok, _ := s.present(e, f, x.Block().Preds[i], d+1); !ok {
+				return false, ""
+			}
+		}
+		return true, "present on every incoming edge"
+	case *ssa.Extract:
+		call, ok := x.Tuple.(*ssa.Call)
+		if !ok || at == nil || at.Parent() != call.Parent() {
+			return false, ""
+		}
+		cs := CallSite{call.Parent(), call}
+		callee := cs.Callee()
+		if callee == nil {
+			return false, ""
+		}
+		res := call.Call.Signature().Results()
+		// (*http.Request).BasicAuth: ok == true
+		if funcIs(callee, "net/http", "Request", "BasicAuth") {
+			okv := ResultValue(call, res.Len()-1)
+			for _, fc := range FactsAt(at) {
+				c, val := c17StripNot(fc.Cond, fc.Val)
+				if okv != nil && sameOrigin(c, okv) && val {
+					return true, "parsed by (*http.Request).BasicAuth with ok==true"
+				}
+			}
+			return false, ""
+		}
+		// a module parser of the request that returned a nil error, and that
+		// returns an error whenever the header it reads is absent
+		if !InModule(callee) || len(callee.Blocks) == 0 {
+			return false, ""
+		}
+		ev, hasErr, discarded := ErrValue(call)
+		if !hasErr || discarded {
+			return false, ""
+		}
+		if k, isNil := NilFact(at, ev); !(k && isNil) {
+			return false, ""
+		}
+		reqArg := false
+		for _, a := range call.Call.Args {
+			if s.reqDerived(a, f) {
+				reqArg = true
+			}
+		}
+		if !reqArg {
+			return false, ""
+		}
+		if ok, why := s.reportsAbsence(callee); ok {
+			return true, "parsed by " + FuncKey(callee) + " with err==nil (" + why + ")"
+		}
+	case *ssa.UnOp:
+		// matches[i] of re.FindStringSubmatch(requestValue) under a length
+		// check, where re cannot match the empty string
+		if x.Op != token.MUL {
+			break
+		}
+		ia, ok := x.X.(*ssa.IndexAddr)
+		if !ok {
+			break
+		}
+		call, ok := originValue(ia.X).(*ssa.Call)
+		if !ok || at == nil || at.Parent() != call.Parent() {
+			break
+		}
+		cs := CallSite{call.Parent(), call}
+		if !(cs.IsStatic("regexp", "Regexp", "FindStringSubmatch") || cs.IsStatic("regexp", "Regexp", "FindSubmatch")) || len(call.Call.Args) != 2 {
+			break
+		}
+		if !s.reqDerived(call.Call.Args[1], f) {
+			break
+		}
+		matched := false
+		for _, fc := range FactsAt(at) {
+			if s.factNonEmpty(fc.Cond, fc.Val, call) {
+				matched = true
+			}
+		}
+		if !matched {
+			break
+		}
+		pat, ok := s.regexpPattern(call.Call.Args[0])
+		if !ok {
+			break
+		}
+		re, err := syntax.Parse(pat, syntax.Perl)
+		if err != nil || c17RegexpMinLen(re) == 0 {
+			break
+		}
+		return true, "submatch of a request header against a pattern that cannot match an absent (empty) value"
+	}
+	return false, ""
+}
+
+// regexpPattern: v is a load of a module package variable assigned exactly
+// once, in the package initialiser, from regexp.MustCompile(constant).
+func (s *c17Sec) regexpPattern(v ssa.Value) (string, bool) {
+	ld, ok := originValue(v).(*ssa.UnOp)
+	if !ok || ld.Op != token.MUL {
+		return "", false
+	}
+	g, ok := ld.X.(*ssa.Global)
+	if !ok || g.Pkg == nil || !strings.HasPrefix(g.Pkg.Pkg.Path(), modPrefix) {
+		return "", false
+	}
+	var val ssa.Value
+	n := 0
+	for _, fn := range s.scanFuncs(g) {
+		for _, b := range fn.Blocks {
+			for _, in := range b.Instrs {
+				for _, op := range in.Operands(nil) {
+					if *op != ssa.Value(g) {
+						continue
+					}
+					switch x := in.(type) {
+					case *ssa.UnOp:
+						if x.Op == token.MUL {
+							continue
+						}
+					case *ssa.DebugRef:
+						continue
+					case *ssa.Store:
+						if x.Addr == ssa.Value(g) && fn.Synthetic != "" && fn.Name() == "init" {
+							val = x.Val
+							n++
+							continue
+						}
+					}
+					return "", false
+				}
+			}
+		}
+	}
+	if n != 1 {
+		return "", false
+	}
+	call, ok := originValue(val).(*ssa.Call)
+	if !ok || len(call.Call.Args) != 1 {
+		return "", false
+	}
+	cs := CallSite{call.Parent(), call}
+	if !cs.IsStatic("regexp", "", "MustCompile") {
+		return "", false
+	}
+	return ConstString(call.Call.Args[0])
+}
+
+// c17RegexpMinLen: the length of the shortest string the expression matches.
+func c17RegexpMinLen(re *syntax.Regexp) int {
+	switch re.Op {
+	case syntax.OpLiteral:
+		return len(re.Rune)
+	case syntax.OpCharClass, syntax.OpAnyChar, syntax.OpAnyCharNotNL:
+		return 1
+	case syntax.OpCapture, syntax.OpPlus:
+		return c17RegexpMinLen(re.Sub[0])
+	case syntax.OpRepeat:
+		return re.Min * c17RegexpMinLen(re.Sub[0])
+	case syntax.OpConcat:
+		n := 0
+		for _, sub := range re.Sub {
+			n += c17RegexpMinLen(sub)
+		}
+		return n
+	case syntax.OpAlternate:
+		min := -1
+		for _, sub := range re.Sub {
+			if m := c17RegexpMinLen(sub); min < 0 || m < min {
+				min = m
+			}
+		}
+		if min < 0 {
+			return 0
+		}
+		return min
+	}
+	return 0 // star, quest, empty-width assertions, no-match
+}
+
+// reportsAbsence: every return of fn whose error may be nil lies behind a
+// check that a request-derived string read in fn is non-empty, i.e. fn
+// reports an error when the header/form value it parses is absent.
+func (s *c17Sec) reportsAbsence(fn *ssa.Function) (bool, string) {
+	if pr, ok := s.absenceMemo[fn]; ok {
+		return pr.ok, pr.why
+	}
+	s.absenceMemo[fn] = c17Proof{}
+	f := c17RootFrame(fn)
+	var srcs []ssa.Value
+	for _, c := range CallsIn(fn, false) {
+		if call := c.Value(); call != nil && c17StringLike(call.Type()) && s.reqDerived(call, f) {
+			srcs = append(srcs, call)
+		}
+	}
+	nrs := MaybeNilErrorReturns(fn)
+	if len(nrs) == 0 || len(srcs) == 0 {
+		return false, ""
+	}
+	why := ""
+	for _, nr := range nrs {
+		guarded := false
+		blocks := []*ssa.BasicBlock{nr.Ret.Block()}
+		if nr.From != nil && nr.From != nr.Ret.Block() {
+			blocks = append(blocks, nr.From)
+		}
+		for _, b := range blocks {
+			for _, fc := range FactsAt(b) {
+				for _, src := range srcs {
+					if s.factNonEmpty(fc.Cond, fc.Val, src) {
+						guarded = true
+						why = "it fails unless " + (CallSite{fn, src.(*ssa.Call)}).CalleeKey() + " yields a non-empty value"
+					}
+				}
+			}
+		}
+		if !guarded {
+			return false, ""
+		}
+	}
+	s.absenceMemo[fn] = c17Proof{true, why}
+	return true, why
+}
+
+// configSecret: the resolved secret is a field of an auth mode.
+func (s *c17Sec) configSecret(v ssa.Value) bool {
+	fa, _, ok := c17FieldLoad(v)
+	if !ok {
+		return false
+	}
+	n, _ := c17FieldOf(fa)
+	return n != nil && s.authTypes[n]
+}
+
+// ---- package-level secrets -------------------------------------------------
+
+type c17GlobalInfo struct {
+	ok        bool   // every writer stores a non-empty value, address never escapes
+	why       string // reason when !ok, summary otherwise
+	initStore bool   // written by the package initialiser
+	writers   []*ssa.Store
+}
+
+func (s *c17Sec) pkgFuncs(pkg *ssa.Package) []*ssa.Function {
+	fns := append([]*ssa.Function(nil), s.p.FuncsIn(RelPkg(pkg.Pkg))...)
+	if in := pkg.Func("init"); in != nil {
+		fns = append(fns, in)
+	}
+	return fns
+}
+
+func (s *c17Sec) scanFuncs(g *ssa.Global) []*ssa.Function {
+	if obj := g.Object(); obj != nil && !obj.Exported() {
+		return s.pkgFuncs(g.Pkg)
+	}
+	fns := append([]*ssa.Function(nil), s.p.AllFuncs...)
+	if in := g.Pkg.Func("init"); in != nil {
+		fns = append(fns, in)
+	}
+	return fns
+}
+
+func (s *c17Sec) globalInfo(g *ssa.Global) *c17GlobalInfo {
+	if gi, ok := s.globalMemo[g]; ok {
+		return gi
+	}
+	gi := &c17GlobalInfo{ok: true}
+	s.globalMemo[g] = gi
+	name := RelPkg(g.Pkg.Pkg) + "." + g.Name()
+	for _, fn := range s.scanFuncs(g) {
+		for _, b := range fn.Blocks {
+			for _, in := range b.Instrs {
+				uses := false
+				for _, op := range in.Operands(nil) {
+					if *op == ssa.Value(g) {
+						uses = true
+					}
+				}
+				if !uses {
+					continue
+				}
+				switch x := in.(type) {
+				case *ssa.UnOp:
+					if x.Op == token.MUL {
+						continue
+					}
+				case *ssa.Store:
+					if x.Addr == ssa.Value(g) && x.Val != ssa.Value(g) {
+						gi.writers = append(gi.writers, x)
+						if fn.Synthetic != "" && fn.Name() == "init" {
+							gi.initStore = true
+						}
+						continue
+					}
+				case *ssa.DebugRef:
+					continue
+				}
+				gi.ok = false
+				gi.why = "the address of " + name + " escapes in " + FuncKey(fn) + " (" + s.p.Pos(in.Pos()) + ")"
+				return gi
+			}
+		}
+	}
+	if len(gi.writers) == 0 {
+		gi.ok, gi.why = false, name+" is never assigned"
+		return gi
+	}
+	var whys []string
+	for _, st := range gi.writers {
+		fn := st.Parent()
+		ok, why := s.nonEmpty(st.Val, c17RootFrame(fn), st.Block(), 2)
+		if !ok {
+			gi.ok, gi.why = false, FuncKey(fn)+" may store an empty value into "+name+": "+why
+			return gi
+		}
+		minted := !(fn.Synthetic != "" && fn.Name() == "init")
+		if _, isConst := c17StripConv(st.Val).(*ssa.Const); isConst {
+			minted = false
+		}
+		if minted && !s.fromCryptoRand(st.Val, 0) {
+			gi.ok, gi.why = false, FuncKey(fn)+" stores a value into "+name+" that does not derive from crypto/rand: the run-time minted secret is guessable"
+			return gi
+		}
+		whys = append(whys, FuncKey(fn)+" stores "+why)
+	}
+	gi.why = strings.Join(c17Uniq(whys), "; ")
+	return gi
+}
+
+// fromCryptoRand: v derives from a crypto/rand source.
+func (s *c17Sec) fromCryptoRand(v ssa.Value, d int) bool {
+	if d > 4 {
+		return false
+	}
+	return c17DependsOn(v, func(x ssa.Value) bool {
+		switch c := x.(type) {
+		case *ssa.Call:
+			cs := CallSite{c.Parent(), c}
+			callee := cs.Callee()
+			if callee == nil {
+				return false
+			}
+			if funcIs(callee, "crypto/rand", "", "Text") || funcIs(callee, "crypto/rand", "", "Int") || funcIs(callee, "crypto/rand", "", "Prime") {
+				return true
+			}
+			if InModule(callee) && len(callee.Blocks) > 0 && callee.Signature.Results().Len() == 1 && !s.busy[callee] {
+				s.busy[callee] = true
+				defer delete(s.busy, callee)
+				rets := Returns(callee)
+				if len(rets) == 0 {
+					return false
+				}
+				for _, ri := range rets {
+					if !s.fromCryptoRand(ri.Results[0], d+1) {
+						return false
+					}
+				}
+				return true
+			}
+		case *ssa.MakeSlice, *ssa.Alloc:
+			in := x.(ssa.Instruction)
+			for _, cs := range CallsIn(in.Parent(), false) {
+				args := cs.Common().Args
+				switch {
+				case cs.IsStatic("crypto/rand", "", "Read") && len(args) == 1:
+					if sameOrigin(c17StripConv(args[0]), x) {
+						return true
+					}
+				case cs.IsStatic("io", "", "ReadFull") && len(args) == 2:
+					isRand := c17DependsOn(args[0], func(y ssa.Value) bool {
+						g, ok := y.(*ssa.Global)
+						return ok && g.Pkg != nil && g.Pkg.Pkg.Path() == "crypto/rand" && g.Name() == "Reader"
+					})
+					if isRand && sameOrigin(c17StripConv(args[1]), x) {
+						return true
+					}
+				}
+			}
+		}
+		return false
+	})
+}
+
+// establishes: instruction in assigns g, or runs (through sync.Once.Do or a
+// plain call) a function every return of which lies behind such an assignment.
+func (s *c17Sec) establishes(in ssa.Instruction, g *ssa.Global, d int) (bool, string) {
+	switch x := in.(type) {
+	case *ssa.Store:
+		if x.Addr == ssa.Value(g) {
+			return true, "assigned in " + FuncKey(x.Parent())
+		}
+	case *ssa.Call:
+		cs := CallSite{x.Parent(), x}
+		if cs.IsStatic("sync", "Once", "Do") && len(x.Call.Args) == 2 {
+			fv := c17FuncValue(x.Call.Args[1])
+			if fv == nil {
+				return false, ""
+			}
+			if ok, _ := s.alwaysEnsures(fv, g, d+1); !ok {
+				return false, ""
+			}
+			cell, isVar := varOf(x.Call.Args[0])
+			og, isGlobal := cell.(*ssa.Global)
+			if !isVar || !isGlobal {
+				return false, ""
+			}
+			// the same Once must not be consumed by a function that does not assign g
+			for _, fn := range s.scanFuncs(og) {
+				for _, oc := range CallsIn(fn, false) {
+					if !oc.IsStatic("sync", "Once", "Do") || len(oc.Common().Args) != 2 {
+						continue
+					}
+					if c2, ok := varOf(oc.Common().Args[0]); !ok || c2 != cell {
+						continue
+					}
+					f2 := c17FuncValue(oc.Common().Args[1])
+					if f2 == nil {
+						return false, ""
+					}
+					if ok, _ := s.alwaysEnsures(f2, g, d+1); !ok {
+						return false, ""
+					}
+				}
+			}
+			return true, og.Name() + ".Do(" + FuncKey(fv) + ")"
+		}
+		if callee := cs.Callee(); callee != nil && InModule(callee) && len(callee.Blocks) > 0 {
+			if ok, why := s.alwaysEnsures(callee, g, d+1); ok {
+				return true, FuncKey(callee) + " [" + why + "]"
+			}
+		}
+	}
+	return false, ""
+}
+
+func c17FuncValue(v ssa.Value) *ssa.Function {
+	switch x := originValue(v).(type) {
+	case *ssa.Function:
+		return x
+	case *ssa.MakeClosure:
+		f, _ := x.Fn.(*ssa.Function)
+		return f
+	}
+	return nil
+}
+
+// alwaysEnsures: every return of fn is dominated by an instruction that
+// establishes g.
+func (s *c17Sec) alwaysEnsures(fn *ssa.Function, g *ssa.Global, d int) (bool, string) {
+	if d > 4 || len(fn.Blocks) == 0 {
+		return false, ""
+	}
+	rets := Returns(fn)
+	if len(rets) == 0 {
+		return false, ""
+	}
+	for _, b := range fn.Blocks {
+		for _, in := range b.Instrs {
+			ok, why := s.establishes(in, g, d)
+			if !ok {
+				continue
+			}
+			all := true
+			for _, ri := range rets {
+				if !Precedes(in, ri.Ret) {
+					all = false
+				}
+			}
+			if all {
+				return true, why
+			}
+		}
+	}
+	return false, ""
+}
+
+// globalNonEmptyAt: the load ld of package variable g yields a non-empty value.
+func (s *c17Sec) globalNonEmptyAt(g *ssa.Global, ld *ssa.UnOp) (bool, string) {
+	name := RelPkg(g.Pkg.Pkg) + "." + g.Name()
+	if g.Pkg == nil || !strings.HasPrefix(g.Pkg.Pkg.Path(), modPrefix) {
+		return false, "package variable " + name + " outside the module"
+	}
+	gi := s.globalInfo(g)
+	if !gi.ok {
+		return false, gi.why
+	}
+	if gi.initStore {
+		return true, name + " is initialised at program start and only ever assigned non-empty values [" + gi.why + "]"
+	}
+	fn := ld.Parent()
+	for _, b := range fn.Blocks {
+		if !(b == ld.Block() || b.Dominates(ld.Block())) {
+			continue
+		}
+		for _, in := range b.Instrs {
+			if !Precedes(in, ld) {
+				continue
+			}
+			if ok, why := s.establishes(in, g, 0); ok {
+				return true, name + " is read after " + why + " on every path [" + gi.why + "]"
+			}
+		}
+	}
+	var ws []string
+	for _, st := range gi.writers {
+		ws = append(ws, FuncKey(st.Parent()))
+	}
+	return false, "secret may still be empty: " + name + " is read directly in " + FuncKey(fn) + " without a preceding initialisation; it is only assigned lazily (in " + strings.Join(c17Uniq(ws), ", ") + ") and holds \"\" until then"
+}
+
+// ---- configured secrets (struct fields) -------------------------------------
+
+func (s *c17Sec) fieldNonEmpty(fa *ssa.FieldAddr, ptr bool) (bool, string) {
+	owner, fv := c17FieldOf(fa)
+	if fv == nil {
+		return false, "field not resolved"
+	}
+	oname := "struct"
+	if owner != nil {
+		oname = owner.Obj().Name()
+	}
+	key := fmt.Sprintf("%s.%s/%v/%p", oname, fv.Name(), ptr, fv)
+	if pr, ok := s.fieldMemo[key]; ok {
+		return pr.ok, pr.why
+	}
+	s.fieldMemo[key] = c17Proof{false, "recursive field derivation"}
+	ok, why := s.fieldNonEmpty1(owner, fv, oname, ptr)
+	s.fieldMemo[key] = c17Proof{ok, why}
+	return ok, why
+}
+
+func (s *c17Sec) fieldNonEmpty1(owner *types.Named, fv *types.Var, oname string, ptr bool) (bool, string) {
+	fname := oname + "." + fv.Name()
+	nWriters := 0
+	var whys []string
+	for _, fn := range s.p.AllFuncs {
+		if IsTestSupportPkg(RelPkg(TopFunc(fn).Pkg.Pkg)) {
+			continue
+		}
+		for _, b := range fn.Blocks {
+			for _, in := range b.Instrs {
+				switch x := in.(type) {
+				case *ssa.FieldAddr:
+					if _, v2 := c17FieldOf(x); v2 != fv || x.Referrers() == nil {
+						continue
+					}
+					for _, ref := range *x.Referrers() {
+						st, ok := ref.(*ssa.Store)
+						if !ok || st.Addr != ssa.Value(x) {
+							continue
+						}
+						nWriters++
+						val := st.Val
+						if ptr {
+							if IsNilConst(val) {
+								continue
+							}
+							al, isAl := c17StripConv(val).(*ssa.Alloc)
+							if !isAl || al.Referrers() == nil {
+								return false, fname + " is set in " + FuncKey(fn) + " to a pointer that is not followed"
+							}
+							n := 0
+							for _, ar := range *al.Referrers() {
+								switch y := ar.(type) {
+								case *ssa.Store:
+									if y.Addr == ssa.Value(al) {
+										n++
+										if ok, why := s.nonEmpty(y.Val, c17RootFrame(y.Parent()), y.Block(), 3); !ok {
+											return false, fname + " is set in " + FuncKey(fn) + " to a possibly empty value: " + why
+										} else {
+											whys = append(whys, FuncKey(fn)+": "+why)
+										}
+									}
+								case *ssa.UnOp, *ssa.DebugRef:
+								default:
+									return false, fname + " points to a variable of " + FuncKey(fn) + " whose address escapes"
+								}
+							}
+							if n == 0 {
+								return false, fname + " points to a variable of " + FuncKey(fn) + " that is never assigned"
+							}
+							continue
+						}
+						if ok, why := s.nonEmpty(val, c17RootFrame(fn), st.Block(), 3); !ok {
+							return false, fname + " is set in " + FuncKey(fn) + " (" + s.p.Pos(st.Pos()) + ") to a possibly empty value: " + why
+						} else {
+							whys = append(whys, FuncKey(fn)+": "+why)
+						}
+					}
+				case *ssa.Alloc:
+					// a value of the owning type created without setting the field holds ""
+					if ptr || owner == nil {
+						continue
+					}
+					pt, ok := x.Type().Underlying().(*types.Pointer)
+					if !ok || !types.Identical(pt.Elem(), owner) || x.Referrers() == nil {
+						continue
+					}
+					set := false
+					for _, ref := range *x.Referrers() {
+						if a2, ok := ref.(*ssa.FieldAddr); ok && a2.Referrers() != nil {
+							if _, v2 := c17FieldOf(a2); v2 == fv {
+								for _, rr := range *a2.Referrers() {
+									if st, ok := rr.(*ssa.Store); ok && st.Addr == ssa.Value(a2) {
+										set = true
+									}
+								}
+							}
+						}
+						if st, ok := ref.(*ssa.Store); ok && st.Addr == ssa.Value(x) {
+							set = true // whole-value copy: covered by the source value's own creation
+						}
+					}
+					if !set {
+						return false, "a " + oname + " is created in " + FuncKey(fn) + " (" + s.p.Pos(x.Pos()) + ") without setting " + fv.Name()
+					}
+				}
+			}
+		}
+	}
+	if nWriters == 0 {
+		return false, fname + " is never assigned"
+	}
+	return true, "every assignment of " + fname + " stores a non-empty value [" + strings.Join(c17Uniq(whys), "; ") + "]"
+}
+
+// ---- atoms and evaluation ----------------------------------------------------
+
+type c17HelperRes struct {
+	kind  c17Kind
+	descr []string
+	recs  []*c17SiteRec
+}
+
+type c17Eval struct {
+	s     *c17Sec
+	f     *c17Frame
+	atoms []*c17Atom
+	idx   map[ssa.Value]*c17Atom
+	bad   string // non-empty: the function could not be followed
+}
+
+func c17IsBool(t types.Type) bool {
+	b, ok := t.Underlying().(*types.Basic)
+	return ok && b.Info()&types.IsBoolean != 0
+}
+
+// leaves splits a boolean value into atoms.
+func (e *c17Eval) leaves(v ssa.Value, seen map[ssa.Value]bool) {
+	if v == nil || seen[v] {
+		return
+	}
+	seen[v] = true
+	switch x := v.(type) {
+	case *ssa.Const:
+		return
+	case *ssa.Phi:
+		for _, ed := range x.Edges {
+			e.leaves(ed, seen)
+		}
+		return
+	case *ssa.UnOp:
+		if x.Op == token.NOT {
+			e.leaves(x.X, seen)
+			return
+		}
+	case *ssa.BinOp:
+		if c17IsBool(x.X.Type()) && c17IsBool(x.Y.Type()) {
+			e.leaves(x.X, seen)
+			e.leaves(x.Y, seen)
+			return
+		}
+	}
+	if _, ok := e.idx[v]; ok {
+		return
+	}
+	a := e.s.classify(v, e.f)
+	e.idx[v] = a
+	e.atoms = append(e.atoms, a)
+}
+
+// c17IsIntLike: an integer-valued result such as auth.Operation.
+func c17IsIntLike(t types.Type) bool {
+	b, ok := t.Underlying().(*types.Basic)
+	return ok && b.Info()&types.IsInteger != 0
+}
+
+// opLeaves finds the helper calls an Operation-valued result is made of.
+func (e *c17Eval) opLeaves(v ssa.Value, seen map[ssa.Value]bool) {
+	if v == nil || seen[v] {
+		return
+	}
+	seen[v] = true
+	switch x := v.(type) {
+	case *ssa.Phi:
+		for _, ed := range x.Edges {
+			e.opLeaves(ed, seen)
+		}
+	case *ssa.BinOp:
+		e.opLeaves(x.X, seen)
+		e.opLeaves(x.Y, seen)
+	case *ssa.ChangeType:
+		e.opLeaves(x.X, seen)
+	case *ssa.Convert:
+		e.opLeaves(x.X, seen)
+	case *ssa.Call:
+		if _, ok := e.idx[v]; ok {
+			return
+		}
+		a := e.s.classify(v, e.f)
+		if _, followed := e.s.helperMemo[x]; followed {
+			e.idx[v] = a
+			e.atoms = append(e.atoms, a)
+		}
+	}
+}
+
+func (s *c17Sec) newEval(f *c17Frame) *c17Eval {
+	e := &c17Eval{s: s, f: f, idx: map[ssa.Value]*c17Atom{}}
+	fn := f.fn
+	if fn.Recover != nil {
+		e.bad = "function with defer/recover"
+	}
+	seen := map[ssa.Value]bool{}
+	for _, b := range fn.Blocks {
+		if len(b.Instrs) == 0 {
+			continue
+		}
+		switch t := b.Instrs[len(b.Instrs)-1].(type) {
+		case *ssa.If:
+			e.leaves(t.Cond, seen)
+		case *ssa.Return:
+			if len(t.Results) != 1 {
+				e.bad = "not a single-result function"
+				continue
+			}
+			if rv := resolveReturnValue(t.Results[0], t); c17IsBool(rv.Type()) {
+				e.leaves(rv, seen)
+			} else {
+				e.opLeaves(rv, seen)
+			}
+		}
+	}
+	// module calls that are not followed as bool helpers must not hide a
+	// credential comparison (e.g. a helper returning an Operation or a tuple)
+	for _, c := range CallsIn(fn, false) {
+		callee := c.Callee()
+		if callee == nil || !InModule(callee) {
+			continue
+		}
+		if call := c.Value(); call != nil {
+			if _, followed := s.helperMemo[call]; followed {
+				continue
+			}
+		}
+		if why := s.hides(callee, 0); why != "" {
+			s.noteUndecided(FuncKey(fn)+"#call:"+FuncKey(callee), s.p.Pos(c.Pos()), "a credential comparison inside "+FuncKey(callee)+" is not followed (only helpers with a single bool/Operation result that feed the decision are): "+why)
+		}
+	}
+	return e
+}
+
+type c17Run struct {
+	ok    bool
+	grant bool
+	ret   *ssa.Return
+	used  map[*c17Atom]bool
+}
+
+// run executes the function under an assignment of the atoms.
+func (e *c17Eval) run(sigma func(*c17Atom) bool) c17Run {
+	fn := e.f.fn
+	res := c17Run{used: map[*c17Atom]bool{}}
+	env := map[*ssa.Phi]ssa.Value{}
+	var evalBool func(v ssa.Value, d int) (bool, bool)
+	evalBool = func(v ssa.Value, d int) (bool, bool) {
+		if d > 64 {
+			return false, false
+		}
+		switch x := v.(type) {
+		case *ssa.Const:
+			if x.Value != nil && x.Value.Kind() == constant.Bool {
+				return constant.BoolVal(x.Value), true
+			}
+			return false, false
+		case *ssa.Phi:
+			if ev, ok := env[x]; ok {
+				return evalBool(ev, d+1)
+			}
+			return false, false
+		case *ssa.UnOp:
+			if x.Op == token.NOT {
+				r, ok := evalBool(x.X, d+1)
+				return !r, ok
+			}
+		case *ssa.BinOp:
+			if c17IsBool(x.X.Type()) && c17IsBool(x.Y.Type()) {
+				a, ok1 := evalBool(x.X, d+1)
+				b, ok2 := evalBool(x.Y, d+1)
+				if !ok1 || !ok2 {
+					return false, false
+				}
+				switch x.Op {
+				case token.EQL:
+					return a == b, true
+				case token.NEQ, token.XOR:
+					return a != b, true
+				case token.AND:
+					return a && b, true
+				case token.OR:
+					return a || b, true
+				}
+				return false, false
+			}
+		}
+		a, ok := e.idx[v]
+		if !ok {
+			return false, false
+		}
+		res.used[a] = true
+		return sigma(a), true
+	}
+	var nonZero func(v ssa.Value, d int) bool
+	nonZero = func(v ssa.Value, d int) bool {
+		if d > 64 {
+			return true
+		}
+		switch x := v.(type) {
+		case *ssa.Const:
+			if x.Value == nil {
+				return false
+			}
+			if x.Value.Kind() == constant.Int {
+				return constant.Sign(x.Value) != 0
+			}
+			return true
+		case *ssa.Phi:
+			if ev, ok := env[x]; ok {
+				return nonZero(ev, d+1)
+			}
+		case *ssa.ChangeType:
+			return nonZero(x.X, d+1)
+		case *ssa.Convert:
+			return nonZero(x.X, d+1)
+		case *ssa.BinOp:
+			switch x.Op {
+			case token.OR, token.ADD, token.XOR:
+				return nonZero(x.X, d+1) || nonZero(x.Y, d+1)
+			case token.AND:
+				return nonZero(x.X, d+1) && nonZero(x.Y, d+1)
+			}
+		case *ssa.Call:
+			if a, ok := e.idx[v]; ok {
+				res.used[a] = true
+				return sigma(a)
+			}
+		}
+		return true // a computed Operation: possibly non-zero
+	}
+	b := fn.Blocks[0]
+	var prev *ssa.BasicBlock
+	for steps := 0; steps < 4*len(fn.Blocks)+32; steps++ {
+		if prev != nil {
+			for _, in := range b.Instrs {
+				ph, ok := in.(*ssa.Phi)
+				if !ok {
+					break
+				}
+				for i, pr := range b.Preds {
+					if pr == prev {
+						env[ph] = ph.Edges[i]
+					}
+				}
+			}
+		}
+		if len(b.Instrs) == 0 {
+			return res
+		}
+		var next *ssa.BasicBlock
+		switch t := b.Instrs[len(b.Instrs)-1].(type) {
+		case *ssa.Return:
+			if len(t.Results) != 1 {
+				return res
+			}
+			rv := resolveReturnValue(t.Results[0], t)
+			res.ret = t
+			if c17IsBool(rv.Type()) {
+				g, ok := evalBool(rv, 0)
+				res.ok, res.grant = ok, g
+				return res
+			}
+			res.ok, res.grant = true, nonZero(rv, 0)
+			return res
+		case *ssa.Jump:
+			next = b.Succs[0]
+		case *ssa.If:
+			c, ok := evalBool(t.Cond, 0)
+			if !ok {
+				return res
+			}
+			if c {
+				next = b.Succs[0]
+			} else {
+				next = b.Succs[1]
+			}
+		case *ssa.Panic:
+			res.ok = true // no result: the request is not served
+			return res
+		default:
+			return res
+		}
+		prev, b = b, next
+	}
+	return res
+}
+
+const c17MaxAtoms = 16
+
+// enumerate calls visit for every assignment of the free and weak atoms
+// (strong comparisons fail). forceWeakFail additionally fails weak ones.
+func (e *c17Eval) assignment(bits uint32, forceWeakFail bool) func(*c17Atom) bool {
+	pos := map[*c17Atom]int{}
+	n := 0
+	for _, a := range e.atoms {
+		if a.kind != c17Strong {
+			pos[a] = n
+			n++
+		}
+	}
+	return func(a *c17Atom) bool {
+		switch a.kind {
+		case c17Strong:
+			return !a.succ
+		case c17Weak:
+			if forceWeakFail {
+				return !a.succ
+			}
+		}
+		return bits&(1<<uint(pos[a])) != 0
+	}
+}
+
+func (e *c17Eval) nEnum() int {
+	n := 0
+	for _, a := range e.atoms {
+		if a.kind != c17Strong {
+			n++
+		}
+	}
+	return n
+}
+
+func (e *c17Eval) hasCredential() bool {
+	for _, a := range e.atoms {
+		if a.kind != c17Free {
+			return true
+		}
+	}
+	return false
+}
+
+type c17Witness struct {
+	atoms []*c17Atom
+	ret   *ssa.Return
+}
+
+// witnesses: minimal sets of weak comparisons whose success alone turns a
+// refusal into a grant.
+func (e *c17Eval) witnesses() (ws []c17Witness, canFree, canWeak bool, bad string) {
+	if e.bad != "" {
+		return nil, false, false, e.bad
+	}
+	n := e.nEnum()
+	if n > c17MaxAtoms {
+		return nil, false, false, fmt.Sprintf("%d independent conditions: too many to enumerate", n)
+	}
+	seen := map[string]bool{}
+	for bits := uint32(0); bits < 1<<uint(n); bits++ {
+		sg := e.assignment(bits, false)
+		r1 := e.run(sg)
+		if !r1.ok {
+			return nil, false, false, "a path through " + FuncKey(e.f.fn) + " could not be followed"
+		}
+		if !r1.grant {
+			continue
+		}
+		var w []*c17Atom
+		for _, a := range e.atoms {
+			if a.kind == c17Weak && r1.used[a] && sg(a) == a.succ {
+				w = append(w, a)
+			}
+		}
+		if len(w) == 0 {
+			canFree = true
+			continue
+		}
+		r2 := e.run(e.assignment(bits, true))
+		if !r2.ok {
+			return nil, false, false, "a path through " + FuncKey(e.f.fn) + " could not be followed"
+		}
+		if r2.grant {
+			continue // granted anyway: the weak comparisons were incidental
+		}
+		canWeak = true
+		var ks []string
+		for _, a := range w {
+			ks = append(ks, fmt.Sprintf("%p", a))
+		}
+		k := strings.Join(ks, ",")
+		if !seen[k] {
+			seen[k] = true
+			ws = append(ws, c17Witness{w, r1.ret})
+		}
+	}
+	// keep the minimal ones
+	var min []c17Witness
+	for i, w := range ws {
+		minimal := true
+		for j, o := range ws {
+			if i != j && len(o.atoms) < len(w.atoms) && c17Subset(o.atoms, w.atoms) {
+				minimal = false
+			}
+		}
+		if minimal {
+			min = append(min, w)
+		}
+	}
+	return min, canFree, canWeak, ""
+}
+
+func c17Subset(a, b []*c17Atom) bool {
+	for _, x := range a {
+		found := false
+		for _, y := range b {
+			if x == y {
+				found = true
+			}
+		}
+		if !found {
+			return false
+		}
+	}
+	return true
+}
+
+func (s *c17Sec) recordSite(construct, site string, strong bool, why string) *c17SiteRec {
+	rec, ok := s.sites[construct]
+	if !ok {
+		rec = &c17SiteRec{construct: construct, site: site, strong: strong, why: why}
+		s.sites[construct] = rec
+		s.siteOrder = append(s.siteOrder, construct)
+		return rec
+	}
+	if rec.strong && !strong {
+		rec.strong, rec.why = false, why
+	}
+	return rec
+}
+
+func (s *c17Sec) noteUndecided(construct, site, detail string) {
+	if _, ok := s.undecided[construct]; !ok {
+		s.undecided[construct] = detail
+		s.undSite[construct] = site
+	}
+}
+
+// classify turns a boolean leaf into an atom.
+func (s *c17Sec) classify(v ssa.Value, f *c17Frame) *c17Atom {
+	a := &c17Atom{v: v, kind: c17Free, succ: true}
+	in, _ := v.(ssa.Instruction)
+	cmp, ambiguous := c17AsComparison(v)
+	if ambiguous && in != nil {
+		s.noteUndecided(FuncKey(f.fn)+"#comparison", s.p.Pos(in.Pos()), "the result of a comparison function is tested in a way that does not separate equal from different")
+		return a
+	}
+	if cmp != nil && in != nil {
+		xr, yr := s.reqDerived(cmp.x, f), s.reqDerived(cmp.y, f)
+		if xr == yr {
+			return a
+		}
+		req, sec := cmp.x, cmp.y
+		if yr {
+			req, sec = cmp.y, cmp.x
+		}
+		secV, secF := s.resolve(sec, f)
+		if _, isConst := secV.(*ssa.Const); isConst {
+			return a // protocol syntax (method, header name), not a secret
+		}
+		s.nCmp++
+		a.succ = cmp.succ
+		at := in.Block()
+		var strong bool
+		var why string
+		switch {
+		case cmp.prefixLike:
+			// true whenever the second operand is empty
+			strong, why = s.nonEmpty(cmp.y, f, at, 0)
+			if !strong {
+				why = cmp.name + " is true for an empty second operand: " + why
+			}
+		default:
+			strong, why = s.nonEmpty(sec, f, at, 0)
+			if strong {
+				why = "secret: " + why
+			} else if ok2, why2 := s.nonEmpty(req, f, at, 0); ok2 {
+				strong, why = true, "request operand: "+why2
+			} else if s.configSecret(secV) {
+				// a configured secret may be whatever the operator chose; what matters is
+				// that a request without the credential cannot reach the success edge
+				if ok3, why3 := s.present(req, f, at, 0); ok3 {
+					strong, why = true, "configured secret; the request operand is present in the request: "+why3
+				} else {
+					why += "; and the request operand is not the result of a successful parse of a credential header (an absent header/form value reads as \"\")"
+				}
+			}
+		}
+		name := s.describe(secV)
+		secFn := f.fn
+		if secF != nil {
+			secFn = secF.fn
+		}
+		construct := FuncKey(secFn) + "#secret:" + name
+		rec := s.recordSite(construct, s.p.Pos(in.Pos()), strong, why)
+		a.name = name
+		a.recs = []*c17SiteRec{rec}
+		if strong {
+			a.kind = c17Strong
+		} else {
+			a.kind = c17Weak
+			d := name
+			if secFn != f.root().fn {
+				d = FuncKey(secFn) + ":" + name
+			}
+			a.descr = []string{d}
+		}
+		return a
+	}
+	// helper returning a single bool
+	if call, ok := v.(*ssa.Call); ok {
+		cs := CallSite{call.Parent(), call}
+		callee := cs.Callee()
+		if callee == nil || !InModule(callee) || len(callee.Blocks) == 0 {
+			return a
+		}
+		res := callee.Signature.Results()
+		if res.Len() == 1 && (c17IsBool(res.At(0).Type()) || c17IsIntLike(res.At(0).Type())) && !f.inChain(callee) && f.depth < 5 {
+			hr := s.helper(call, callee, f)
+			a.kind, a.descr, a.recs = hr.kind, hr.descr, hr.recs
+			a.name = FuncKey(callee)
+			return a
+		}
+		if why := s.hides(callee, 0); why != "" {
+			s.noteUndecided(FuncKey(f.fn)+"#call:"+FuncKey(callee), s.p.Pos(call.Pos()), "a credential comparison inside "+FuncKey(callee)+" is not followed: "+why)
+		}
+	}
+	return a
+}
+
+func (s *c17Sec) helper(call *ssa.Call, callee *ssa.Function, f *c17Frame) *c17HelperRes {
+	if hr, ok := s.helperMemo[call]; ok {
+		return hr
+	}
+	hr := &c17HelperRes{kind: c17Free}
+	s.helperMemo[call] = hr
+	nf := &c17Frame{fn: callee, call: call, parent: f, depth: f.depth + 1}
+	e := s.newEval(nf)
+	ws, canFree, canWeak, bad := e.witnesses()
+	if bad != "" {
+		if e.hasCredential() {
+			s.noteUndecided(FuncKey(callee)+"#paths", s.p.Pos(callee.Pos()), bad)
+			hr.kind = c17Weak
+			hr.descr = []string{FuncKey(callee) + ":unfollowed"}
+		} else if why := s.hides(callee, 0); why != "" {
+			s.noteUndecided(FuncKey(callee)+"#paths", s.p.Pos(callee.Pos()), bad+"; "+why)
+		}
+		return hr
+	}
+	switch {
+	case canFree:
+		hr.kind = c17Free
+	case canWeak:
+		hr.kind = c17Weak
+		for _, w := range ws {
+			for _, a := range w.atoms {
+				hr.descr = append(hr.descr, a.descr...)
+				hr.recs = append(hr.recs, a.recs...)
+			}
+		}
+		hr.descr = c17Uniq(hr.descr)
+	default:
+		if e.hasCredential() {
+			hr.kind = c17Strong
+		}
+	}
+	return hr
+}
+
+// hides: fn (or a module function it calls) contains an equality test against
+// a package-level string or a field of an auth mode; "" when it does not.
+func (s *c17Sec) hides(fn *ssa.Function, d int) string {
+	if d > 3 || fn == nil || !InModule(fn) {
+		return ""
+	}
+	if why, ok := s.hideMemo[fn]; ok {
+		return why
+	}
+	s.hideMemo[fn] = ""
+	why := ""
+	isSecretish := func(x ssa.Value) bool {
+		switch y := x.(type) {
+		case *ssa.Global:
+			pt, ok := y.Type().Underlying().(*types.Pointer)
+			return ok && c17StringLike(pt.Elem()) && y.Pkg != nil && strings.HasPrefix(y.Pkg.Pkg.Path(), modPrefix)
+		case *ssa.FieldAddr:
+			n, _ := c17FieldOf(y)
+			return n != nil && s.authTypes[n]
+		}
+		return false
+	}
+	for _, b := range fn.Blocks {
+		for _, in := range b.Instrs {
+			v, ok := in.(ssa.Value)
+			if !ok {
+				continue
+			}
+			if cmp, _ := c17AsComparison(v); cmp != nil {
+				if c17DependsOn(cmp.x, isSecretish) || c17DependsOn(cmp.y, isSecretish) {
+					why = "comparison at " + s.p.Pos(in.Pos())
+				}
+			}
+			if call, ok := in.(*ssa.Call); ok && why == "" {
+				if callee := (CallSite{fn, call}).Callee(); callee != nil {
+					if w := s.hides(callee, d+1); w != "" {
+						why = w
+					}
+				}
+			}
+		}
+	}
+	s.hideMemo[fn] = why
+	return why
+}
+
+func c17OpName(ret *ssa.Return) string {
+	if ret == nil || len(ret.Results) != 1 {
+		return "a non-zero Operation"
+	}
+	if k, ok := ret.Results[0].(*ssa.Const); ok && k.Value != nil {
+		return "Operation " + k.Value.ExactString()
+	}
+	return "a non-zero Operation"
+}
+
+func c17RuleSecret(p *Program, r *Reporter) {
+	const rule = "H-secret"
+	r.Floor(rule, 12)
+	s := &c17Sec{p: p, r: r,
+		sites: map[string]*c17SiteRec{}, globalMemo: map[*ssa.Global]*c17GlobalInfo{}, fieldMemo: map[string]c17Proof{},
+		busy: map[*ssa.Function]bool{}, helperMemo: map[*ssa.Call]*c17HelperRes{}, hideMemo: map[*ssa.Function]string{}, absenceMemo: map[*ssa.Function]c17Proof{},
+		authTypes: map[*types.Named]bool{}, undecided: map[string]string{}, undSite: map[string]string{}}
+	iface := p.Iface("pkg/auth", "AuthMode")
+	impls := p.Implementers(iface, false)
+	for _, n := range impls {
+		s.authTypes[n] = true
+	}
+	nModes := 0
+	for _, n := range impls {
+		fn := c17Method(p, n, "AllowedAccess")
+		if fn == nil {
+			if any, _ := p.MethodOf(n, "AllowedAccess"); any == nil {
+				brokenf("anchor unresolved: %s.AllowedAccess", n.Obj().Name())
+			}
+			continue // promoted from an embedded mode that is analysed itself
+		}
+		nModes++
+		e := s.newEval(c17RootFrame(fn))
+		construct := FuncKey(fn) + "#grants"
+		site := p.Pos(fn.Pos())
+		ws, _, _, bad := e.witnesses()
+		if bad != "" {
+			if e.hasCredential() || s.hides(fn, 0) != "" {
+				r.Undecided(rule, construct, site, bad)
+			} else {
+				r.OKTable(rule, construct, site, "no credential comparison (mode does not compare request data with a secret)")
+			}
+			continue
+		}
+		if !e.hasCredential() {
+			r.OKTable(rule, construct, site, "no credential comparison: the mode grants by design without comparing request data with a secret")
+			continue
+		}
+		var strong, weak []string
+		for _, a := range e.atoms {
+			switch a.kind {
+			case c17Strong:
+				strong = append(strong, s.atomName(a))
+			case c17Weak:
+				weak = append(weak, strings.Join(a.descr, "|"))
+			}
+		}
+		if len(ws) == 0 {
+			d := fmt.Sprintf("over all %d assignments of its %d conditions with every strong comparison failing, no grant depends on a comparison with a possibly empty secret; strong: %s", 1<<uint(e.nEnum()), len(e.atoms), strings.Join(strong, ", "))
+			if len(weak) > 0 {
+				d += "; possibly-empty but never decisive: " + strings.Join(weak, ", ")
+			}
+			r.OK(rule, construct, site, d)
+			continue
+		}
+		for _, w := range ws {
+			var ds, whys []string
+			for _, a := range w.atoms {
+				ds = append(ds, a.descr...)
+				for _, rec := range a.recs {
+					if !rec.strong {
+						rec.decisive = true
+						whys = append(whys, strings.TrimPrefix(rec.construct[strings.Index(rec.construct, "#secret:"):], "#secret:")+": "+rec.why)
+					}
+				}
+			}
+			ds = c17Uniq(ds)
+			rsite := site
+			if w.ret != nil {
+				rsite = p.Pos(w.ret.Pos())
+			}
+			r.Violation(rule, FuncKey(fn)+"#grant-by:"+strings.Join(ds, "+"), rsite,
+				"a request that carries no credentials (an absent header/form value reads as \"\") is granted "+c17OpName(w.ret)+": the only comparisons it must pass are against secrets that may be empty ("+strings.Join(ds, ", ")+"), and \"\" == \"\" succeeds. "+strings.Join(c17Uniq(whys), " | "))
+		}
+	}
+	for _, c := range s.siteOrder {
+		rec := s.sites[c]
+		switch {
+		case rec.strong:
+			r.OK(rule, c, rec.site, "a request without credentials cannot pass this comparison - "+rec.why)
+		case !rec.decisive:
+			r.OKTable(rule, c, rec.site, "possibly empty ("+rec.why+"), but every grant behind it also needs a comparison with a non-empty secret")
+		}
+	}
+	var uks []string
+	for c := range s.undecided {
+		uks = append(uks, c)
+	}
+	sort.Strings(uks)
+	for _, c := range uks {
+		r.Undecided(rule, c, s.undSite[c], s.undecided[c])
+	}
+	r.Analysed("auth_modes", nModes)
+	r.Analysed("credential_comparisons", s.nCmp)
+}
+
+func (s *c17Sec) atomName(a *c17Atom) string {
+	if a.name != "" {
+		return a.name
+	}
+	return a.v.Name()
 }
